@@ -3,8 +3,12 @@ EXTENDS StatRel
 Pattern(sh, seed) == [shape |-> sh, cells |-> [q \in 1..Elements(sh) |-> QI(((q * 7 + seed * 3) % 5) + (IF q % 3 = seed % 3 THEN 2 ELSE 0))]]
 MCShapes == {<<5>>, <<6>>, <<3, 3>>, <<3, 4>>, <<5, 3>>, <<3, 2, 4>>, <<3, 3, 3>>, <<2, 3, 2, 3>>}
 MCShapesQuick == {<<5>>, <<3, 3>>, <<4, 3>>, <<3, 2, 3>>, <<2, 3, 2, 2>>}
-MCStart == {Pattern(sh, s) : sh \in MCShapes, s \in 0..3}
-MCStartQuick == {Pattern(sh, s) : sh \in MCShapesQuick, s \in 0..1}
+\* spectra with NEGATIVE cells (a residual / difference spectrum): the f3 / f4 combinations are algebraic identities and hold there too,
+\* with marginal f2 values that may themselves be negative
+NegPattern(sh) == [shape |-> sh, cells |-> [q \in 1..Elements(sh) |-> QI(((q * 7) % 5) + 1 - (IF q % 4 = 1 THEN 9 ELSE 0))]]
+MCNeg == {NegPattern(sh) : sh \in {<<3, 2, 4>>, <<2, 3, 2, 4>>, <<3, 2, 3>>}}
+MCStart == {Pattern(sh, s) : sh \in MCShapes, s \in 0..3} \cup MCNeg
+MCStartQuick == {Pattern(sh, s) : sh \in MCShapesQuick, s \in 0..1} \cup MCNeg
 MCScale == {QMk(1, 3), QI(2), QI(1000), QMk(1, 10000)}   \* the last one brings every total below one
 \* the last pair is sixteen orders of magnitude above the polymorphic entries: anything computed as
 \* "total minus the monomorphic cells" would lose the polymorphic part to rounding
